@@ -67,11 +67,31 @@ def canonSet (xs : List Nat) : List Nat :=
 
 def errJ (e : Err) : Json := obj [("r", Json.str "raised"), ("kind", Json.str (reprStr e)), ("py", Json.str e.pyClass)]
 
+mutual
+  /-- the graph and every graph nested in it -/
+  partial def subGraphs (g : GraphT) : List GraphT := g :: g.nodes.flatMap nodeSubs
+  partial def nodeSubs (n : NodeT) : List GraphT := n.bodies.flatMap subGraphs
+end
+
+/-- the decidable hypotheses of C18_extract_eval for one successful cut -/
+def hypJ (W : World) (T : Target) (v : View) : Json :=
+  match v.outputs with
+  | [] => Json.null
+  | o :: _ =>
+    match W.graphOf o with
+    | none => Json.null
+    | some p =>
+      obj [("source", toJson (sourceOKB W p T.nodes)),
+           ("bodies", toJson (T.nodes.all (bodiesOKB W p))),
+           ("scope", toJson (scopeB W (T.kind == Kind.function) v.inputs v.outputs p v.nodes)),
+           ("names", toJson (initNamesB W))]
+
 def runJ (W : World) (T : Target) (ins outs : List Arg) : Json :=
   match extract W T ins outs with
   | .error e => errJ e
   | .ok v => obj [("r", Json.str "ok"), ("inputs", natsJ v.inputs), ("outputs", natsJ v.outputs),
-                  ("nodes", natsJ v.nodes), ("inits", natsJ (canonSet v.inits))]
+                  ("nodes", natsJ v.nodes), ("inits", natsJ (canonSet v.inits)),
+                  ("rewired", natsJ (canonSet (rewired W v))), ("hyp", hypJ W T v)]
 
 def handle : Handler := fun m j =>
   match m with
@@ -111,7 +131,11 @@ def handle : Handler := fun m j =>
       let g ← parseGraph (← j.getObjVal? "graph")
       let u := analyze W g
       let u := (u.toArray.qsort (fun a b => a.1 < b.1)).toList
-      return obj [("r", Json.arr (u.map (fun kv => Json.arr #[toJson kv.1, natsJ (canonSet kv.2)])).toArray)]
+      let bodies := g.nodes.flatMap (·.bodies)
+      let all := bodies.flatMap gidsG
+      let hyp := bodies.all (fun b => scopedGB W all [] b) && (bodies.flatMap subGraphs).all (backPtrB W)
+      return obj [("r", Json.arr (u.map (fun kv => Json.arr #[toJson kv.1, natsJ (canonSet kv.2)])).toArray),
+                  ("hyp", toJson hyp)]
   | _ => none
 
 end IrVerif.Drive.Extract
